@@ -1,0 +1,364 @@
+//go:build verif
+
+// Contracts for package main, property C08 (comment-only; read by /verif/vcgo, build tag verif).
+package main
+
+// ---- C08: request handlers ----
+//
+// Entry preconditions state only what the transport guarantees: the handler receiver, the request context, the
+// *jsonrpc2.Request / protobuf request pointer are non-nil objects created by the server; the epoch set is well formed
+// (validEpochSet, contracts_verif.go), no lock is held on entry. Everything that comes from the client (req.Params,
+// req.ID, optional proto fields, strings, slices) is arbitrary.
+
+// ---- replies (bodies are calls into jsoniter / fasthttp: frame assumed, nothing visible to the handlers is written) ----
+
+//@ func replyJSON
+//@   requires ctx != nil
+//@   noframe
+
+//@ func (*requestContext) ReplyWithError
+//@   requires c.ctx != nil
+//@   noframe
+
+//@ func (*requestContext) Reply
+//@   requires c.ctx != nil
+//@   noframe
+
+//@ func (*requestContext) ReplyRaw
+//@   requires c.ctx != nil
+//@   noframe
+
+//@ func toMapAny
+//@   noframe
+
+//@ func getRequestIDFromContext
+//@   requires ctx != nil
+
+//@ func setRequestIDToContext
+//@   ensures result != nil
+//@   noframe
+
+//@ func putValueIntoContext
+//@   ensures result != nil
+//@   noframe
+
+//@ func getValueFromContext
+//@   requires ctx != nil
+
+//@ func WithSubrapghPrefetch
+//@   ensures result != nil
+//@   noframe
+
+//@ func newTimer
+//@   ensures result != nil && fresh(result)
+
+//@ func (*timer) time
+//@   modifies t
+
+//@ func ptrToUint64
+//@   ensures result != nil
+//@   ensures *result == v
+
+// ---- request parsing: NO precondition on raw (req.Params is nil when the request has no "params" member) ----
+
+//@ func defaultCommitment
+//@ func defaultEncoding
+//@ func defaultTransactionDetails
+
+//@ func isAnyEncodingOf
+
+//@ func (*GetBlockRequest) Validate
+//@   noframe
+
+//@ func (*GetTransactionRequest) Validate
+//@   noframe
+
+//@ func parseGetBlockRequest
+//@   ensures result1 == nil ==> result0 != nil
+//@   ensures result1 == nil ==> result0.Options.Commitment != nil && result0.Options.Encoding != nil
+//@   ensures result1 == nil ==> result0.Options.TransactionDetails != nil && result0.Options.Rewards != nil
+//@   noframe
+
+//@ func parseGetTransactionRequest
+//@   ensures result1 == nil ==> result0 != nil
+//@   ensures result1 == nil ==> result0.Options.Encoding != nil
+//@   noframe
+
+//@ func parseGetBlockTimeRequest
+//@   noframe
+
+//@ func parseGetSignaturesForAddressParams
+//@   ensures result1 == nil ==> result0 != nil
+//@   ensures result1 == nil ==> 0 < result0.Limit && result0.Limit <= 1000
+//@   noframe
+
+// ---- Epoch read path: wrappers around the index readers, the CAR reader, the caches and the ipld decoders. ----
+// Abstracted (noframe): they write only state owned by the Epoch (caches), nothing the handlers read. What is stated is
+// what their code guarantees: a nil error comes with a non-nil node (the iplddecoders return &node on success).
+
+//@ func (*Epoch) Epoch
+//@   ensures result == e.epoch
+
+//@ func (*Epoch) GetCache
+//@   ensures result == r.allCache
+
+//@ func (*Epoch) GetGenesis
+//@   ensures result == e.genesis
+
+//@ func (*Epoch) GetBlocktimeIndex
+//@   ensures result == r.blocktimeindex
+// (validIndex(result) cannot be stated here: spec functions / unexported fields of package blocktimeindex are not visible from main)
+
+//@ func (*Epoch) GetBlock
+//@   ensures result2 == nil ==> result0 != nil
+//@   noframe
+
+//@ func (*Epoch) GetTransaction
+//@   ensures result2 == nil ==> result0 != nil
+//@   noframe
+
+//@ func (*Epoch) GetEntryByCid
+//@   ensures result1 == nil ==> result0 != nil
+//@   noframe
+
+//@ func (*Epoch) GetTransactionByCid
+//@   ensures result1 == nil ==> result0 != nil
+//@   noframe
+
+//@ func (*Epoch) GetDataFrameByCid
+//@   ensures result1 == nil ==> result0 != nil
+//@   noframe
+
+//@ func (*Epoch) GetRewardsByCid
+//@   ensures result1 == nil ==> result0 != nil
+//@   noframe
+
+//@ func (*Epoch) GetFirstAvailableBlock
+//@   ensures result1 == nil ==> result0 != nil
+//@   noframe
+
+//@ func (*Epoch) GetMostRecentAvailableBlock
+//@   ensures result1 == nil ==> result0 != nil
+//@   noframe
+
+//@ func (*Epoch) GetNodeByCid
+//@   noframe
+
+//@ func (*Epoch) GetNodeByOffsetAndSize
+//@   noframe
+
+//@ func (*Epoch) ReadAtFromCar
+//@   noframe
+
+//@ func (*Epoch) FindCidFromSlot
+//@   noframe
+
+//@ func (*Epoch) FindCidFromSignature
+//@   noframe
+
+//@ func (*Epoch) FindOffsetAndSizeFromCid
+//@   ensures e == nil ==> os != nil
+//@   noframe
+
+//@ func (*Epoch) prefetchSubgraph
+//@   noframe
+
+// ---- JSON-RPC handlers ----
+
+//@ func (*MultiEpoch) handleRequest
+//@   requires ctx != nil && conn != nil && conn.ctx != nil && req != nil
+//@   requires held(ser.mu) == 0 && validEpochSet(ser) && ser.options != nil
+//@   noframe
+
+//@ func (*MultiEpoch) handleGetBlock
+//@   requires ctx != nil && conn != nil && conn.ctx != nil && req != nil
+//@   requires held(multi.mu) == 0 && validEpochSet(multi) && multi.options != nil
+//@   noframe
+
+//@ func (*MultiEpoch) handleGetTransaction
+//@   requires ctx != nil && conn != nil && conn.ctx != nil && req != nil
+//@   requires held(multi.mu) == 0 && validEpochSet(multi) && multi.options != nil
+//@   noframe
+
+//@ func (*MultiEpoch) handleGetSignaturesForAddress
+//@   requires ctx != nil && conn != nil && conn.ctx != nil && req != nil
+//@   requires held(multi.mu) == 0 && validEpochSet(multi) && multi.options != nil
+//@   noframe
+
+//@ func (*MultiEpoch) handleGetBlockTime
+//@   requires ctx != nil && conn != nil && conn.ctx != nil && req != nil
+//@   requires held(multi.mu) == 0 && validEpochSet(multi) && multi.options != nil
+//@   noframe
+
+//@ func (*MultiEpoch) handleGetGenesisHash
+//@   requires ctx != nil && conn != nil && conn.ctx != nil && req != nil
+//@   requires held(multi.mu) == 0 && validEpochSet(multi) && multi.options != nil
+//@   noframe
+
+//@ func (*MultiEpoch) handleGetFirstAvailableBlock
+//@   requires ctx != nil && conn != nil && conn.ctx != nil && req != nil
+//@   requires held(multi.mu) == 0 && validEpochSet(multi) && multi.options != nil
+//@   noframe
+
+//@ func (*MultiEpoch) handleGetSlot
+//@   requires ctx != nil && conn != nil && conn.ctx != nil && req != nil
+//@   requires held(multi.mu) == 0 && validEpochSet(multi) && multi.options != nil
+//@   noframe
+
+// ---- helpers of the handlers ----
+
+//@ func (*MultiEpoch) getAllBucketteers
+//@   requires held(multi.mu) == 0 && validEpochSet(multi)
+//@   ensures held(multi.mu) == 0
+//@   ensures result != nil
+//@   noframe
+
+//@ func (*MultiEpoch) findEpochNumberFromSignature
+//@   requires ctx != nil && held(multi.mu) == 0 && validEpochSet(multi) && multi.options != nil
+//@   ensures held(multi.mu) == 0
+//@   noframe
+
+//@ func (*MultiEpoch) getGsfaReadersInEpochDescendingOrder
+//@   requires held(ser.mu) == 0 && validEpochSet(ser)
+//@   ensures held(ser.mu) == 0
+//@   ensures len(result0) == len(result1)
+//@   noframe
+
+//@ func (*MultiEpoch) getGsfaReadersInEpochDescendingOrderForSlotRange
+//@   requires held(ser.mu) == 0 && validEpochSet(ser)
+//@   ensures held(ser.mu) == 0
+//@   ensures len(result1) > 0 ==> result0 != nil
+//@   noframe
+
+//@ func countTransactions
+//@   ensures result >= 0
+//@   loop 0 invariant count >= 0
+
+//@ func mergeTxNodeSlices
+//@   noframe
+
+//@ func parseTransactionAndMetaFromNode
+//@   requires transactionNode != nil
+//@   noframe
+
+//@ func getTransactionAndMetaFromNode
+//@   requires transactionNode != nil
+//@   noframe
+
+//@ func getErr
+//@   noframe
+
+//@ func getMemoInstructionDataFromTransaction
+//@   requires tx != nil
+//@   noframe
+
+//@ func IsSimpleVoteTransaction
+//@   requires tx != nil
+//@   noframe
+
+//@ func rewardTypeToString
+
+//@ func asFloat
+//@   noframe
+
+//@ func clone
+//@   ensures len(result) == len(in)
+//@   noframe
+
+//@ func byeSliceToUint16Slice
+//@   ensures len(result) == len(in)
+//@   loop 0 invariant len(out) == len(in)
+
+//@ func byteSlicesToKeySlice
+//@   ensures len(result) == len(keys)
+//@   loop 0 invariant len(out) == rangeidx0
+//@   noframe
+
+//@ func encodeBytesResponseBasedOnWantedEncoding
+//@   noframe
+
+//@ func compiledInstructionsToJsonParsed
+//@   noframe
+
+//@ func encodeTransactionResponseBasedOnWantedEncoding
+//@   noframe
+
+//@ func adaptTransactionMetaToExpectedOutput
+//@   requires m != nil
+//@   modifies all
+//@   noframe
+
+//@ func byteSliceAsIntegerSlice
+//@   noframe
+
+//@ func NewJobGroup
+//@   ensures result != nil
+//@   noframe
+
+//@ func (*JobGroup) Add
+//@   noframe
+
+//@ func (*JobGroup) RunWithConcurrency
+//@   requires ctx != nil
+//@   noframe
+
+// ---- gRPC side ----
+
+//@ func (*MultiEpoch) GetVersion
+
+//@ func (*MultiEpoch) GetBlock
+//@   requires ctx != nil && params != nil
+//@   requires held(multi.mu) == 0 && validEpochSet(multi) && multi.options != nil
+//@   ensures held(multi.mu) == 0
+//@   ensures result1 == nil ==> result0 != nil
+//@   noframe
+
+//@ func (*MultiEpoch) GetTransaction
+//@   requires ctx != nil && params != nil
+//@   requires held(multi.mu) == 0 && validEpochSet(multi) && multi.options != nil
+//@   ensures held(multi.mu) == 0
+//@   ensures result1 == nil ==> result0 != nil
+//@   noframe
+
+//@ func (*MultiEpoch) GetBlockTime
+//@   requires ctx != nil && params != nil
+//@   requires held(multi.mu) == 0 && validEpochSet(multi) && multi.options != nil
+//@   ensures held(multi.mu) == 0
+//@   ensures result1 == nil ==> result0 != nil
+//@   noframe
+
+//@ func (*MultiEpoch) StreamBlocks
+//@   requires params != nil && ser != nil
+//@   requires held(multi.mu) == 0 && validEpochSet(multi) && multi.options != nil
+//@   noframe
+
+//@ func (*MultiEpoch) StreamTransactions
+//@   requires params != nil && ser != nil
+//@   requires held(multi.mu) == 0 && validEpochSet(multi) && multi.options != nil
+//@   noframe
+
+//@ func (*MultiEpoch) processSlotTransactions
+//@   requires ctx != nil && ser != nil
+//@   requires gsfaReadersLoaded ==> gsfaReader != nil
+//@   requires held(multi.mu) == 0 && validEpochSet(multi) && multi.options != nil
+//@   noframe
+
+//@ func blockContainsAccounts
+//@   requires block != nil
+//@   noframe
+
+//@ spec func validTxBuffer(b *txBuffer) bool = b.items != nil && (forall s uint64 :: has(b.items, s) ==> b.items[s] != nil)
+
+//@ func newTxBuffer
+//@   ensures result != nil && validTxBuffer(result)
+//@   ensures result.startSlot == startSlot && result.endSlot == endSlot && result.currentSlot == startSlot
+
+//@ func (*txBuffer) add
+//@   requires held(b.mu) == 0 && validTxBuffer(b)
+//@   ensures held(b.mu) == 0 && validTxBuffer(b)
+//@   noframe
+
+//@ func (*txBuffer) flush
+//@   requires ser != nil && held(b.mu) == 0 && validTxBuffer(b)
+//@   ensures held(b.mu) == 0
+//@   noframe
